@@ -27,8 +27,7 @@ class FiniteStateController(POMDPPolicy):
 
     def action_dist(self, ag : AgentState) -> Distribution[Action]:
         action = self.action_strategy[ag]
-        action_idx = self.pomdp.action_list.index(action)
-        return DictDistribution.deterministic(action_idx)
+        return DictDistribution.deterministic(action)
 
     def next_agentstate(self, ag : AgentState, a : Action, o : Observation) -> AgentState:
         oi = self.pomdp.observation_index[o]
